@@ -301,8 +301,6 @@ def check_response(variant: str, res: dict, x: dict, raise_flag: bool) -> list:
         if detailed:
             probs += _raw_fields(r, x)
         return probs
-    if x.get("expect") == "undefined":
-        return probs  # a combination without a defined decoding (binary schema under a text/JSON media type): only variant agreement is checked
     if exc:
         probs.append((f"exception:{exc['type']}", f"documented status {x['status']} raised {exc['type']}: {exc['msg'][:160]} at {exc.get('where')}"))
         return probs
